@@ -154,20 +154,24 @@ CHECKS['C09'] = dict(
     ref='§5 C09')
 
 CHECKS['C01'] = dict(
-    technique='Lean 4 theorems (wrapper state machine over any op history; grid theory shared with C09) + differential correspondence with an element-by-element coordinate-map oracle',
-    text=('Theorems (Usid/Properties/C01.lean): toggling is an involution; after ANY list of toggles interleaved with reads '
-          'the wrapper differs from the initial one only in its sort flag = initial flag xor parity of toggles; labels, '
-          'sizes and N-D form all read that one flag and the sorted labels/sizes are the file-order ones picked by the '
-          'same permutation the sorted form was transposed by. Grid facts used by the reshape (Usid/Properties/C09.lean): '
-          'the computed sort order has the true strides for every dimension of size > 1, for every storage permutation '
-          'and every tie-break. PARTIAL: the coordinate-map theorem for reshape_to_n_dims itself (element at the '
-          'ancillary indices of (r,c) equals main[r,c]) is not yet proved in Lean (plan in DESIGN.md); it is decided on '
-          'every generated dataset by the oracle, which checks EVERY element of every returned view, and the '
-          'statement-by-statement executable model is compared with the implementation (eager/lazy, HDF5 and in-memory '
-          'ancillaries, wrapper constructed with either flag and toggled).'),
-    note=COMMON_NOTE + 'numpy/dask reshape and transpose semantics assumed; np.argsort tie order among size-1 dimensions '
-         'is unspecified, so views are compared after transposing to file order. Known finding KF-D5a (more dimensions '
-         'than points).',
+    technique='Lean 4 theorems: coordinate map of reshape_to_n_dims for every regular grid / storage permutation, both orderings; wrapper views over any op history + differential correspondence with an element-by-element coordinate-map oracle',
+    text=('Theorems (Usid/Properties/C01.lean): coordinate_map - for EVERY pair of regular grids (any number of '
+          'dimensions, sizes >= 1, any storage permutation of the change rates, dimensions <= points per side), every Main '
+          'matrix and distinct labels, reshape_to_n_dims(sort_dims=False) succeeds, returns labels and sizes in file order '
+          'and the element at (position indices of row r ++ spectroscopic indices of column c) is main[r, c] for every r, '
+          'c; coordinate_map_sorted - the same for sort_dims=True with dimensions listed slowest first in the order found '
+          'by get_sort_order, for every tie-break of the sort among size-1 dimensions; wrapper_views - a USIDataset opened '
+          'on such a dataset holds file-order labels/sizes, ONE permutation, a file-order N-D form that is the coordinate '
+          'map and a sorted form whose element at the coordinates rearranged by that permutation is again main[r, c]; '
+          'toggle_involutive, views_after_ops (after ANY list of toggles interleaved with reads only the flag differs: '
+          'initial xor parity), one_permutation (labels, sizes, N-D form switch together). Proof chain: change counts of '
+          'grid rows (C09), strides along any non-increasing order, mixed radix under any order, label-driven axis swap = '
+          'inverse permutation, transpose access lemma. Correspondence: statement-by-statement executable model vs '
+          'implementation (eager/lazy, HDF5 and in-memory ancillaries, wrapper with either flag and toggled); the oracle '
+          'checks EVERY element of every returned view against a raw-h5py coordinate map.'),
+    note=COMMON_NOTE + 'numpy/dask reshape and transpose semantics are modelled by NDArr (C order) and checked by the correspondence; '
+         'np.argsort tie order among size-1 dimensions is unspecified, so the theorems hold for every order and views are compared after '
+         'transposing to file order. Hypothesis "dimensions <= points per side" is exactly the known finding KF-D5a.',
     ref='§5 C01')
 CHECKS['C10'] = dict(
     technique='Lean 4 theorems (refusal and shape theorems over the flattening model) + differential correspondence with round-trip oracle',
